@@ -1,5 +1,6 @@
-(* Fine-grained concurrent semantics of ONE doAtSchedule (core/schedule/do_at.go + start_sync.go):
-   the leaf that Model/SchedTree.v / SchedConc.v / SchedNested.v treat as an atomic object.
+(* Fine-grained concurrent semantics of ONE leaf schedule - doAtSchedule (core/schedule/do_at.go) or
+   unlimitedSchedule (unlilmited.go), both over start_sync.go: the leaves that Model/SchedTree.v /
+   SchedConc.v / SchedNested.v treat as atomic objects.  (The unlimited leaf: see [unl_progs] below.)
 
    A method body is a list of [lstmt] - the synchronisation skeleton of the Go source, re-read from
    /repo on every run by harness/cmd/trC02 (coq/Gen/SchedSyncGen.v, bridge Gen/SchedSync_bridge.v):
@@ -30,7 +31,9 @@ Import ListNotations.
 Local Open Scope Z_scope.
 
 Inductive lact : Type :=
-| AMarkStarted | ASetStartNow | ASetStartArg | AIncI | ARetByIndex | ALoadLeft.
+| AMarkStarted | ASetStartNow | ASetStartArg | AIncI | ARetByIndex | ALoadLeft
+(* unlimitedSchedule (unlilmited.go) *)
+| AMarkStartedU | AStoreFinNow | AStoreFinArg | AReadNow | ARetUnl | ALeftUnlA | ALeftUnlB.
 
 Inductive lstmt : Type :=
 | LAct (a : lact)
@@ -60,27 +63,53 @@ Definition doat_left_prog : list lstmt := [LAct ALoadLeft].
 Definition doat_progs : lprogs :=
   {| p_next := doat_next_prog; p_start := doat_start_prog; p_left := doat_left_prog |}.
 
+(* unlilmited.go as it is:
+     Next():   s.startOnce.Do(func() { s.finish.Store(time.Now().Add(s.duration)); s.MarkStarted() })
+               now := time.Now(); finish := s.finish.Load(); ... return by comparing now with finish
+     Start(t): s.startOnce.Do(func() { s.finish.Store(t.Add(s.duration)) }); s.MarkStarted()
+     Left():   if !s.IsStarted() || time.Now().Before(s.finish.Load()) { return -1 }; return 0
+   AStoreFinNow / AStoreFinArg  s.finish.Store(...) (an atomic.Time; the clock is read in the same step)
+   AMarkStartedU                MarkStarted() of this type: the same swap-and-panic as AMarkStarted; it is
+                                the step in which the schedule STARTS for every other caller (Left looks at
+                                the flag first), so the ghost history gets an explicit Start(finish - duration)
+   AReadNow                     now := time.Now()  (the Next takes effect: its answer is a function of this
+                                reading and of the finish time, which no longer changes)
+   ARetUnl                      finish := s.finish.Load(); return ...
+   ALeftUnlA                    !s.IsStarted(): return -1 at once when the flag is not set
+   ALeftUnlB                    time.Now().Before(s.finish.Load()): return -1 / 0 *)
+Definition unl_next_prog : list lstmt := [LOnce [AStoreFinNow; AMarkStartedU]; LAct AReadNow; LAct ARetUnl].
+Definition unl_start_prog : list lstmt := [LOnce [AStoreFinArg]; LAct AMarkStartedU].
+Definition unl_left_prog : list lstmt := [LAct ALeftUnlA; LAct ALeftUnlB].
+Definition unl_progs : lprogs :=
+  {| p_next := unl_next_prog; p_start := unl_start_prog; p_left := unl_left_prog |}.
+
 Definition code (P : lprogs) (o : op) : list kont :=
   flat_map compile (match o with ONext => p_next P | OLeft => p_left P | OStart _ => p_start P end).
 
 (* shared state of the leaf *)
-Record lstate : Type := { l_started : bool; l_done : bool; l_busy : bool; l_start : Z; l_i : nat }.
+Record lstate : Type := { l_started : bool; l_done : bool; l_busy : bool; l_start : Z; l_i : nat;
+                          l_fin : Z (* unlimitedSchedule.finish *) }.
 
 (* a thread: remaining code of the operation in progress ([] = between operations), the local
    index, the operations still to do, the values returned so far *)
-Record lthread : Type := { lt_k : list kont; lt_idx : nat; lt_todo : list op; lt_hist : list obs }.
+Record lthread : Type := { lt_k : list kont; lt_idx : nat; lt_now : Z; lt_todo : list op; lt_hist : list obs }.
 
 Definition next_res (n : nat) (d : Z) (a : nat -> Z) (st : Z) (i : nat) : obs :=
   if (i <? n)%nat then RNext (st + a i) true else RNext (st + d) false.
+(* unlimitedSchedule.Next from the clock reading and the finish time *)
+Definition unl_next_res (d : Z) (now fin : Z) : obs :=
+  if now <? fin then RNext (Z.max now (fin - d)) true else RNext fin false.
 
 Definition lt_return (th : lthread) (r : obs) : lthread :=
-  {| lt_k := []; lt_idx := 0; lt_todo := tl (lt_todo th); lt_hist := lt_hist th ++ [r] |}.
+  {| lt_k := []; lt_idx := 0; lt_now := 0; lt_todo := tl (lt_todo th); lt_hist := lt_hist th ++ [r] |}.
 (* continue with the remaining code; falling off the end of a body is a return without a value *)
 Definition lt_goto (th : lthread) (idx : nat) (k : list kont) : lthread :=
   match k with
   | [] => lt_return th RStart
-  | _ => {| lt_k := k; lt_idx := idx; lt_todo := lt_todo th; lt_hist := lt_hist th |}
+  | _ => {| lt_k := k; lt_idx := idx; lt_now := lt_now th; lt_todo := lt_todo th; lt_hist := lt_hist th |}
   end.
+Definition lt_setnow (th : lthread) (now : Z) : lthread :=
+  {| lt_k := lt_k th; lt_idx := lt_idx th; lt_now := now; lt_todo := lt_todo th; lt_hist := lt_hist th |}.
 
 (* what a step contributes to the ghost history: the operation takes effect in this step *)
 Definition lin := option (op * obs).
@@ -96,30 +125,51 @@ Definition lstep (n : nat) (d : Z) (a : nat -> Z) (P : lprogs) (now : Z) (s : ls
       | [] => Some (Ok (s, lt_return th RStart, None))
       | KAct AMarkStarted :: r =>
           if l_started s then Some (Panic PStarted)
-          else Some (Ok ({| l_started := true; l_done := l_done s; l_busy := l_busy s; l_start := l_start s; l_i := l_i s |},
+          else Some (Ok ({| l_started := true; l_done := l_done s; l_busy := l_busy s; l_start := l_start s; l_i := l_i s; l_fin := l_fin s |},
                          lt_goto th (lt_idx th) r, None))
       | KAct ASetStartNow :: r =>
-          Some (Ok ({| l_started := l_started s; l_done := l_done s; l_busy := l_busy s; l_start := now; l_i := l_i s |},
+          Some (Ok ({| l_started := l_started s; l_done := l_done s; l_busy := l_busy s; l_start := now; l_i := l_i s; l_fin := l_fin s |},
                     lt_goto th (lt_idx th) r, None))
       | KAct ASetStartArg :: r =>
           let t := match o with OStart t => t | _ => 0 end in
-          Some (Ok ({| l_started := l_started s; l_done := l_done s; l_busy := l_busy s; l_start := t; l_i := l_i s |},
+          Some (Ok ({| l_started := l_started s; l_done := l_done s; l_busy := l_busy s; l_start := t; l_i := l_i s; l_fin := l_fin s |},
                     lt_goto th (lt_idx th) r, None))
       | KAct AIncI :: r =>
-          Some (Ok ({| l_started := l_started s; l_done := l_done s; l_busy := l_busy s; l_start := l_start s; l_i := S (l_i s) |},
+          Some (Ok ({| l_started := l_started s; l_done := l_done s; l_busy := l_busy s; l_start := l_start s; l_i := S (l_i s); l_fin := l_fin s |},
                     lt_goto th (l_i s) r, Some (ONext, next_res n d a (l_start s) (l_i s))))
       | KAct ARetByIndex :: _ =>
           Some (Ok (s, lt_return th (next_res n d a (l_start s) (lt_idx th)), None))
       | KAct ALoadLeft :: _ =>
           let v := RLeft (Z.of_nat (n - l_i s)) in
           Some (Ok (s, lt_return th v, Some (OLeft, v)))
+      | KAct AMarkStartedU :: r =>
+          if l_started s then Some (Panic PStarted)
+          else Some (Ok ({| l_started := true; l_done := l_done s; l_busy := l_busy s; l_start := l_start s; l_i := l_i s; l_fin := l_fin s |},
+                         lt_goto th (lt_idx th) r, Some (OStart (l_fin s - d), RStart)))
+      | KAct AStoreFinNow :: r =>
+          Some (Ok ({| l_started := l_started s; l_done := l_done s; l_busy := l_busy s; l_start := l_start s; l_i := l_i s; l_fin := now + d |},
+                    lt_goto th (lt_idx th) r, None))
+      | KAct AStoreFinArg :: r =>
+          let t := match o with OStart t => t | _ => 0 end in
+          Some (Ok ({| l_started := l_started s; l_done := l_done s; l_busy := l_busy s; l_start := l_start s; l_i := l_i s; l_fin := t + d |},
+                    lt_goto th (lt_idx th) r, None))
+      | KAct AReadNow :: r =>
+          Some (Ok (s, lt_goto (lt_setnow th now) (lt_idx th) r, Some (ONext, unl_next_res d now (l_fin s))))
+      | KAct ARetUnl :: _ =>
+          Some (Ok (s, lt_return th (unl_next_res d (lt_now th) (l_fin s)), None))
+      | KAct ALeftUnlA :: r =>
+          if l_started s then Some (Ok (s, lt_goto th (lt_idx th) r, None))
+          else Some (Ok (s, lt_return th (RLeft (-1)), Some (OLeft, RLeft (-1))))
+      | KAct ALeftUnlB :: _ =>
+          let v := RLeft (if now <? l_fin s then -1 else 0) in
+          Some (Ok (s, lt_return th v, Some (OLeft, v)))
       | KOnce body :: r =>
           if l_done s then Some (Ok (s, lt_goto th (lt_idx th) r, None))
           else if l_busy s then None
-          else Some (Ok ({| l_started := l_started s; l_done := false; l_busy := true; l_start := l_start s; l_i := l_i s |},
+          else Some (Ok ({| l_started := l_started s; l_done := false; l_busy := true; l_start := l_start s; l_i := l_i s; l_fin := l_fin s |},
                          lt_goto th (lt_idx th) (map KAct body ++ KOnceExit :: r), None))
       | KOnceExit :: r =>
-          Some (Ok ({| l_started := l_started s; l_done := true; l_busy := false; l_start := l_start s; l_i := l_i s |},
+          Some (Ok ({| l_started := l_started s; l_done := true; l_busy := false; l_start := l_start s; l_i := l_i s; l_fin := l_fin s |},
                     lt_goto th (lt_idx th) r, None))
       | KSkipIfStarted m :: r =>
           Some (Ok (s, lt_goto th (lt_idx th) (if l_started s then skipn m r else r), None))
@@ -127,9 +177,9 @@ Definition lstep (n : nat) (d : Z) (a : nat -> Z) (P : lprogs) (now : Z) (s : ls
   end.
 
 (* ---------------------------------------------------------------- the whole system *)
-(* [lg_ghost]: (thread, operation, result) in the order in which the operations took effect; written
+(* [lg_ghost]: (thread, clock reading of the step, operation, result) in the order in which the operations took effect; written
    only (no step reads it) *)
-Record lgstate : Type := { lg_s : lstate; lg_lo : Z; lg_threads : list lthread; lg_ghost : list (nat * op * obs) }.
+Record lgstate : Type := { lg_s : lstate; lg_lo : Z; lg_threads : list lthread; lg_ghost : list (nat * Z * op * obs) }.
 
 Fixpoint lupd {A} (i : nat) (x : A) (l : list A) : list A :=
   match l, i with
@@ -140,7 +190,7 @@ Fixpoint lupd {A} (i : nat) (x : A) (l : list A) : list A :=
 
 Definition lg_after (g : lgstate) (i : nat) (now : Z) (s' : lstate) (th' : lthread) (e : lin) : lgstate :=
   {| lg_s := s'; lg_lo := now; lg_threads := lupd i th' (lg_threads g);
-     lg_ghost := match e with Some (o, r) => lg_ghost g ++ [(i, o, r)] | None => lg_ghost g end |}.
+     lg_ghost := match e with Some (o, r) => lg_ghost g ++ [(i, now, o, r)] | None => lg_ghost g end |}.
 
 (* any thread that has a step, any clock value not before the last one *)
 Inductive lgstep (n : nat) (d : Z) (a : nat -> Z) (P : lprogs) : lgstate -> lgstate -> Prop :=
@@ -158,15 +208,15 @@ Definition lstuck (n : nat) (d : Z) (a : nat -> Z) (P : lprogs) (g : lgstate) : 
   exists i th now k, nth_error (lg_threads g) i = Some th /\ lg_lo g <= now /\
     lstep n d a P now (lg_s g) th = Some (Panic k).
 
-Definition lthread_init (ops : list op) : lthread := {| lt_k := []; lt_idx := 0; lt_todo := ops; lt_hist := [] |}.
+Definition lthread_init (ops : list op) : lthread := {| lt_k := []; lt_idx := 0; lt_now := 0; lt_todo := ops; lt_hist := [] |}.
 
 (* a fresh leaf nobody called Start on ([zero] = the zero time.Time in the start field) *)
 Definition linit (zero lo : Z) (plans : list (list op)) : lgstate :=
-  {| lg_s := {| l_started := false; l_done := false; l_busy := false; l_start := zero; l_i := 0 |};
+  {| lg_s := {| l_started := false; l_done := false; l_busy := false; l_start := zero; l_i := 0; l_fin := zero |};
      lg_lo := lo; lg_threads := map lthread_init plans; lg_ghost := [] |}.
 (* the same after a sequential Start(t) (what compositeSchedule.startNext does under its write lock) *)
 Definition linit_started (t lo : Z) (plans : list (list op)) : lgstate :=
-  {| lg_s := {| l_started := true; l_done := true; l_busy := false; l_start := t; l_i := 0 |};
+  {| lg_s := {| l_started := true; l_done := true; l_busy := false; l_start := t; l_i := 0; l_fin := t |};
      lg_lo := lo; lg_threads := map lthread_init plans; lg_ghost := [] |}.
 
 (* executable scheduler: a list of (thread, clock reading); None = that thread has no step there, the
@@ -186,6 +236,8 @@ Fixpoint lrun (n : nat) (d : Z) (a : nat -> Z) (P : lprogs) (sch : list (nat * Z
       end
   end.
 
-(* results of thread [j] in the ghost history *)
-Definition ghost_of (j : nat) (gh : list (nat * op * obs)) : list obs :=
-  map snd (filter (fun x => Nat.eqb (fst (fst x)) j) gh).
+Definition is_ostart (o : op) : bool := match o with OStart _ => true | _ => false end.
+(* results of thread [j] in the ghost history (the explicit Start entries are nobody's result) *)
+Definition ghost_of (j : nat) (gh : list (nat * Z * op * obs)) : list obs :=
+  map snd (filter (fun x => Nat.eqb (fst (fst (fst x))) j && negb (is_ostart (snd (fst x)))) gh).
+Definition clk_op (x : nat * Z * op * obs) : Z * op := (snd (fst (fst x)), snd (fst x)).
